@@ -249,6 +249,10 @@ func (q *Quadtree) KNearestMatching(buf []orb.Pointer, p orb.Point, k int, f Fil
 		return nil
 	}
 
+	if k <= 0 {
+		return nil
+	}
+
 	b := q.bound
 	v := &nearestVisitor{
 		point:          p,
